@@ -86,6 +86,7 @@ func scenFold(out *scenOut, r *rng, thorough bool) {
 		}
 	}
 	kindsReachUpdate(out)
+	heldMessagesStayIntact(out)
 	slowViewNoOverlap(out)
 	printlnKeepsItsPlace(out)
 	sendsAcrossExec(out, "nil")
@@ -503,6 +504,7 @@ func scenCmds(out *scenOut, r *rng, thorough bool) {
 		cmdResultsAcrossExec(out, input)
 	}
 	twoBigBatches(out)
+	twoProgramsCommands(out)
 }
 
 // batchReuse: the SAME Batch command value (or the same BatchMsg value) occurs more than once:
@@ -842,6 +844,7 @@ func scenSeq(out *scenOut, r *rng, thorough bool) {
 	seqWhileLoopBusyLong(out, false)
 	seqWhileLoopBusyLong(out, true)
 	seqSlowBatchElement(out)
+	twoSequencesAtOnce(out, false)
 	// a sequence element yielding a raw BatchMsg with a nil entry: run in a
 	// child process, because a failure kills the whole process
 	self, _ := os.Executable()
@@ -1169,6 +1172,7 @@ func scenFilter(out *scenOut, r *rng, thorough bool) {
 	filterQuitParked(out)
 	filterBigBatch(out, "keep")
 	filterBigBatch(out, "drop")
+	twoSequencesAtOnce(out, true)
 	for _, verdict := range []string{"keep", "drop", "replace"} {
 		filterRepeated(out, verdict)
 		for _, outcome := range []string{"ok", "fails", "release-fails"} {
@@ -2299,5 +2303,251 @@ func filterBigBatch(out *scenOut, verdict string) {
 	}
 	if got := ctl.log.count("update-enter", "c:fb"); got != int(wantRan) {
 		out.fail(finding{Property: "C16", Class: "new", What: "results of the commands of a large batch did not reach Update exactly once", Input: desc, Expected: fmt.Sprint(wantRan), Observed: fmt.Sprint(got)})
+	}
+}
+
+// ---- sharing between things that run at the same time (round 14) -----------------------------------
+
+// twoSequencesAtOnce: two sequences of ONE program in flight together, each with a nil command in it
+// and each with a Batch element whose commands are slow. Each sequence runs ITS OWN commands, each
+// once, in its own order; the element after a batch starts only when that batch's own commands have
+// all delivered (C03) - whatever the other sequence is doing meanwhile. With a filter that lets
+// everything through (C16: the message let through is treated exactly as if it had been sent).
+func twoSequencesAtOnce(out *scenOut, withFilter bool) {
+	ctl := newRecCtl()
+	var mu sync.Mutex
+	var order []string
+	note := func(s string) { mu.Lock(); order = append(order, s); mu.Unlock() }
+	leaf := func(id string, d time.Duration) tea.Cmd {
+		return func() tea.Msg { note("start " + id); time.Sleep(d); note("end " + id); return cmdMsg{id} }
+	}
+	seqA := tea.Sequence(leaf("A1", 60*time.Millisecond), nil, tea.Batch(leaf("A2a", 150*time.Millisecond), leaf("A2b", 120*time.Millisecond)), leaf("A3", 0), leaf("A4", 0))
+	mkFast := func(L string) tea.Cmd {
+		return tea.Sequence(leaf(L+"1", 5*time.Millisecond), nil, tea.Batch(leaf(L+"2a", 10*time.Millisecond), leaf(L+"2b", 5*time.Millisecond)), leaf(L+"3", 0), nil, leaf(L+"4", 0))
+	}
+	// B, C and D start while A waits for its slow batch: their batches finish in that time
+	seqB := tea.Batch(mkFast("B"), mkFast("C"), mkFast("D"))
+	ctl.onUpdate = func(m tea.Msg, v int) tea.Cmd {
+		if u, ok := m.(userMsg); ok && u.Sender == 9 {
+			if u.Seq == 0 {
+				return seqA
+			}
+			return seqB
+		}
+		return nil
+	}
+	opts := []tea.ProgramOption{tea.WithInput(nil), tea.WithoutSignalHandler()}
+	if withFilter {
+		opts = append(opts, loggingFilter(ctl, func(name string, m tea.Msg) tea.Msg { return m }))
+	}
+	run := startProgram(ctl, nil, opts...)
+	desc := fmt.Sprintf("two sequences in flight together, A = (A1, nil, Batch(A2a, A2b), A3, A4) with slow commands; B, C, D = (x1, nil, Batch(x2a, x2b), x3, nil, x4) with fast ones, started while A waits for its batch; filter=%t", withFilter)
+	waitFor(2*time.Second, func() bool { return ctl.log.has("view-exit", "") })
+	run.p.Send(userMsg{9, 0})
+	time.Sleep(80 * time.Millisecond) // A1 has finished, A waits for its batch (another 120 / 150 ms)
+	run.p.Send(userMsg{9, 1})
+	waitFor(4*time.Second, func() bool {
+		return ctl.log.has("update-exit", "c:A4") && ctl.log.has("update-exit", "c:B4") && ctl.log.has("update-exit", "c:C4") && ctl.log.has("update-exit", "c:D4")
+	})
+	time.Sleep(30 * time.Millisecond)
+	run.p.Quit()
+	run.wait(4 * time.Second)
+	out.record(fmt.Sprintf("two-sequences-at-once/%t", withFilter), desc)
+	props := []string{"C03"}
+	if withFilter {
+		props = []string{"C16", "C03"}
+	}
+	fail := func(what, exp, obs string) {
+		for _, p := range props {
+			out.fail(finding{Property: p, Class: "new", What: what, Input: desc, Expected: exp, Observed: obs})
+		}
+	}
+	mu.Lock()
+	ord := append([]string(nil), order...)
+	mu.Unlock()
+	idx := func(s string) int {
+		for i, o := range ord {
+			if o == s {
+				return i
+			}
+		}
+		return -1
+	}
+	cnt := func(s string) int {
+		n := 0
+		for _, o := range ord {
+			if o == s {
+				n++
+			}
+		}
+		return n
+	}
+	for _, id := range []string{"A1", "A2a", "A2b", "A3", "A4", "B1", "B2a", "B2b", "B3", "B4", "C1", "C2a", "C2b", "C3", "C4", "D1", "D2a", "D2b", "D3", "D4"} {
+		if cnt("start "+id) != 1 {
+			fail("a command of one of two concurrent sequences did not run exactly once (the sequences share what should be their own)", id+" once", fmt.Sprintf("%d times; order: %s", cnt("start "+id), strings.Join(ord, ", ")))
+			return
+		}
+	}
+	for _, c := range [][2]string{{"end A1", "start A2a"}, {"end A1", "start A2b"}, {"end A2a", "start A3"}, {"end A2b", "start A3"}, {"end A3", "start A4"},
+		{"end B1", "start B2a"}, {"end B2a", "start B3"}, {"end B2b", "start B3"}, {"end B3", "start B4"},
+		{"end C2a", "start C3"}, {"end C2b", "start C3"}, {"end D2a", "start D3"}, {"end D2b", "start D3"}} {
+		if idx(c[0]) > idx(c[1]) {
+			fail("an element of a sequence started before the previous element (every command of the batch before it) had finished", c[0]+" before "+c[1], strings.Join(ord, ", "))
+			return
+		}
+	}
+	ups := updatesOf(ctl.log.snapshot())
+	pos := func(s string) int {
+		for i, u := range ups {
+			if u == s {
+				return i
+			}
+		}
+		return -1
+	}
+	for _, c := range [][2]string{{"c:A1", "c:A2a"}, {"c:A2a", "c:A3"}, {"c:A2b", "c:A3"}, {"c:A3", "c:A4"}, {"c:B1", "c:B2a"}, {"c:B2a", "c:B3"}, {"c:B2b", "c:B3"}, {"c:B3", "c:B4"}} {
+		if pos(c[0]) < 0 || pos(c[1]) < 0 || pos(c[0]) > pos(c[1]) {
+			fail("the messages of two concurrent sequences did not reach Update in the order of their own sequence", c[0]+" before "+c[1], strings.Join(ups, ","))
+			return
+		}
+	}
+}
+
+// twoProgramsCommands: two programs in one process. Each starts commands that block until released;
+// the other program starts further commands meanwhile. Every result reaches the Update of the
+// program whose command returned it, exactly once - never the other program's (C02).
+func twoProgramsCommands(out *scenOut) {
+	type prog struct {
+		ctl     *recCtl
+		run     *progRun
+		release chan struct{}
+	}
+	mk := func(tag string) *prog {
+		p := &prog{ctl: newRecCtl(), release: make(chan struct{})}
+		p.ctl.onUpdate = func(m tea.Msg, v int) tea.Cmd {
+			if u, ok := m.(userMsg); ok && u.Sender == 9 {
+				var cmds []tea.Cmd
+				for k := 0; k < 6; k++ {
+					id := fmt.Sprintf("%s-blocked-%d-%d", tag, u.Seq, k)
+					cmds = append(cmds, func() tea.Msg { <-p.release; return cmdMsg{id} })
+				}
+				for k := 0; k < 6; k++ {
+					id := fmt.Sprintf("%s-quick-%d-%d", tag, u.Seq, k)
+					cmds = append(cmds, func() tea.Msg { return cmdMsg{id} })
+				}
+				return tea.Batch(cmds...)
+			}
+			return nil
+		}
+		p.run = startProgram(p.ctl, nil, tea.WithInput(nil), tea.WithoutSignalHandler())
+		return p
+	}
+	a, b := mk("A"), mk("B")
+	desc := "programs A and B in one process; each twice returns Batch(6 commands blocked until released, 6 quick ones), alternately; then A's are released, then B's"
+	for _, p := range []*prog{a, b} {
+		waitFor(2*time.Second, func() bool { return p.ctl.log.has("view-exit", "") })
+	}
+	for round := 0; round < 2; round++ {
+		a.run.p.Send(userMsg{9, round})
+		time.Sleep(5 * time.Millisecond)
+		b.run.p.Send(userMsg{9, round})
+		time.Sleep(5 * time.Millisecond)
+	}
+	time.Sleep(30 * time.Millisecond)
+	close(a.release)
+	time.Sleep(30 * time.Millisecond)
+	close(b.release)
+	for _, p := range []*prog{a, b} {
+		waitFor(3*time.Second, func() bool { return p.ctl.log.count("update-exit", "c:") >= 24 })
+	}
+	time.Sleep(30 * time.Millisecond)
+	for _, p := range []*prog{a, b} {
+		p.run.p.Quit()
+		p.run.wait(4 * time.Second)
+	}
+	out.record("two-programs-commands", desc)
+	for _, x := range []struct {
+		tag, other string
+		p          *prog
+	}{{"A", "B", a}, {"B", "A", b}} {
+		own, foreign := 0, 0
+		counts := map[string]int{}
+		for _, u := range updatesOf(x.p.ctl.log.snapshot()) {
+			if strings.HasPrefix(u, "c:"+x.tag+"-") {
+				own++
+				counts[u]++
+			}
+			if strings.HasPrefix(u, "c:"+x.other+"-") {
+				foreign++
+			}
+		}
+		dup := 0
+		for _, n := range counts {
+			if n != 1 {
+				dup++
+			}
+		}
+		if own != 24 || foreign != 0 || dup != 0 {
+			out.fail(finding{Property: "C02", Class: "new", What: "with two programs in one process the results of a program's commands did not all reach THAT program's Update exactly once", Input: desc,
+				Expected: "program " + x.tag + ": 24 results of its own, none of the other's", Observed: fmt.Sprintf("%d of its own (%d not exactly once), %d of the other program's", own, dup, foreign)})
+		}
+	}
+}
+
+// heldMessagesStayIntact: the model KEEPS every message it is given (a history, an undo list). Keys,
+// a paste, a mouse report and an unknown sequence are typed one after the other on a pipe; at the
+// end every message the model holds still says what it said when Update received it - a message
+// handed to Update is the model's, nothing it refers to is written again by the library (C01:
+// "every Update receives ... never invented"; what was received must not turn into something else).
+func heldMessagesStayIntact(out *scenOut) {
+	ctl := newRecCtl()
+	var mu sync.Mutex
+	var held []tea.Msg
+	var said []string
+	ctl.onUpdate = func(m tea.Msg, v int) tea.Cmd {
+		switch m.(type) {
+		case tea.KeyMsg, tea.MouseMsg:
+			mu.Lock()
+			held = append(held, m)
+			said = append(said, tea.VerifDescribeMsg(m))
+			mu.Unlock()
+		}
+		return nil
+	}
+	pr, pw, err := os.Pipe()
+	if err != nil {
+		return
+	}
+	defer pr.Close()
+	defer pw.Close()
+	run := startProgram(ctl, nil, tea.WithInput(pr), tea.WithoutSignalHandler())
+	desc := "typed one after the other on a pipe: a, b, c, 'hello', a paste of 'first', a paste of 'SECOND', a mouse report, xyz; the model keeps every message"
+	waitFor(2*time.Second, func() bool { return ctl.log.has("view-exit", "") })
+	inputs := []string{"a", "b", "c", "hello", "\x1b[200~first\x1b[201~", "\x1b[200~SECOND\x1b[201~", "\x1b[<0;10;5M", "xyz", "q"}
+	for i, in := range inputs {
+		pw.Write([]byte(in))
+		n := i + 1
+		if !waitFor(2*time.Second, func() bool { mu.Lock(); defer mu.Unlock(); return len(held) >= n }) {
+			break
+		}
+		time.Sleep(2 * time.Millisecond)
+	}
+	run.p.Quit()
+	run.wait(4 * time.Second)
+	out.record("held-messages-stay-intact", desc)
+	mu.Lock()
+	defer mu.Unlock()
+	if len(held) != len(inputs) {
+		out.fail(finding{Property: "C01", Class: "new", What: "typed input did not reach Update as one message per piece", Input: desc, Expected: fmt.Sprint(len(inputs)), Observed: strings.Join(said, " | ")})
+		return
+	}
+	for i, m := range held {
+		if now := tea.VerifDescribeMsg(m); now != said[i] {
+			for _, prop := range []string{"C01", "C08"} {
+				out.fail(finding{Property: prop, Class: "new", What: "a message the model kept changed after Update had received it (it shares memory with something the library went on using)", Input: desc,
+					Expected: said[i], Observed: now})
+			}
+			return
+		}
 	}
 }
